@@ -27,7 +27,7 @@ CLAIMS = {
              "event on each object argument is the getter's self-address test and never a re-stamp; that every load of a guarded pointer value (whole-library inlined, whatever helper it sits in) is "
              "dominated by the fact self == object with abort on the other edge; that every store of the pointer value is paired with a re-stamp; that guarded-pointer "
              "fields are touched only by that accessor pair; and that no library function bitwise-copies an object containing one. "
-             "Conversely the documented (re)initialisers never test the guard of the object they overwrite. Behaviour of client code that copies objects is outside the model.",
+             "Conversely the documented (re)initialisers never test the guard of the object they overwrite; the copy helper tests its source before it writes its destination (G6). Behaviour of client code that copies objects is outside the model.",
         technique="path-sensitive typestate dataflow + dominating facts + field-effect rule over LLVM IR; AST for entry points"),
 }
 
@@ -46,7 +46,7 @@ CLAIMS['C10'] = dict(
          "(T2) every function that resizes the underlying vector asks for n+1 elements and writes the NUL at element n through the "
          "re-read base pointer on every path, and nothing else changes the count; (T3) positional operations touch the buffer only "
          "under the documented bound (pos <= size for insert, pos < size otherwise) and abort on the other edge; (T4) str() never "
-         "returns NULL; (T5) the wide instantiation scales every byte count handed to memcpy/memmove/memset by the character size and uses memset only to fill with 0; (T6) resize's NUL fill of the grown part starts at the old size (never at the old capacity); (T7) swap exchanges every member; (T8) no character pointer read before a reallocation of the same string's storage is used after it; (T9) compare is not bounded by one operand's length alone; (T10) every store / effectful call made by the assertion-enabled build is also made by the NDEBUG build (no work inside assert()). Equality with a reference string and agreement of find/compare with the C library are NOT decided.",
+         "returns NULL; (T5) the wide instantiation scales every byte count handed to memcpy/memmove/memset by the character size and uses memset only to fill with 0; (T6) resize's NUL fill of the grown part starts at the old size (never at the old capacity); (T7) swap exchanges every member; (T8) no character pointer read before a reallocation of the same string's storage is used after it; (T9) compare is not bounded by one operand's length alone; (T11) a string object used as a source is measured by its size, never strlen / wcslen; (T12) characters are moved within one buffer with memmove; (T13) no parameter-derived size is compared as a signed value; (T10) every store / effectful call made by the assertion-enabled build is also made by the NDEBUG build (no work inside assert()). Equality with a reference string and agreement of find/compare with the C library are NOT decided.",
     technique="no-wrap obligations by dominating-facts entailment over inlined LLVM IR; dominance / post-dominance rules; both template instantiations")
 
 CLAIMS['C14'] = dict(
@@ -74,7 +74,7 @@ CLAIMS['C04'] = dict(
          "walk reachable from foreach / foreach_const / clear is bounded by a value that covers both geometries or is preceded by the "
          "forced rehash; (E2) foreach, whose callback may erase, forces the rehash first; (E3) the chain walker never touches a node "
          "after its visit returned; (E4) clear re-establishes every constant that init sets (bucket.cst exempt, reasoned) and frees the "
-         "array exactly once; (E5) after a non-zero visit no further visit happens and that value is returned (path-sensitive); (E6) resize empties and stamps exactly the buckets from the current count (read after the forced rehash) up to the requested count; (E7) a bucket walk is left only when its index reaches the bound or a visit returned non-zero; (E4, order) clear resets no table field before the walk; (E8) the caller's visit / clear function is handed the element (node minus offset), never the chain node. That "
+         "array exactly once; (E5) after a non-zero visit no further visit happens and that value is returned (path-sensitive); (E6) resize empties and stamps exactly the buckets from the current count (read after the forced rehash) up to the requested count; (E7) a bucket walk is left only when its index reaches the bound or a visit returned non-zero; (E4, order) clear resets no table field before the walk; (E8) the caller's visit / clear function is handed the element (node minus offset), never the chain node; (E9) hash.c defines no writable static object (enumerations are reentrant). That "
          "the relocation arithmetic puts every node in exactly one chain is NOT decided.",
     technique="role discovery by effect + pending-aware value classification over branch facts + typestate (stop value) + init/clear sibling agreement")
 
@@ -103,7 +103,7 @@ CLAIMS['C12'] = dict(
          "re-anchors both lists to their own sentinel in the empty and the non-empty case, reading the links after the bitwise swap; "
          "(D3) concat splices only distinct lists and only a source known to be non-empty, adds the size once and re-initialises the source; (D4) foreach binds next for FWD "
          "and prev for REV, never touches a node after its visit, and propagates the first non-zero result (path-sensitive); (D5) "
-         "size is adjusted exactly once on every path that changes a link and not at all on a path that changes none; (D6) reverse links its two cursors directly only under the adjacency test; (D7) swap exchanges every member; (D8) push_front / push_back / insert pass the anchor matching the direction in which the link primitive links; (D9) a visiting walk ends at the head sentinel, never at an element; (D10) callbacks get the context supplied with them and their int result is never narrowed; (D11) size - k values (pair counts, loop bounds) are computed only where size >= k is known; (D8, delegation) an entry point that delegates to insert-after-element does not pass an untested result of a function documented to return NULL; (D12) every store / effectful call made by the assertion-enabled build is also made by the NDEBUG build (no work inside assert()). The link correctness of reverse / sort / merge and equality with a reference "
+         "size is adjusted exactly once on every path that changes a link and not at all on a path that changes none; (D6) reverse links its two cursors directly only under the adjacency test; (D7) swap exchanges every member; (D8) push_front / push_back / insert pass the anchor matching the direction in which the link primitive links; (D9) a visiting walk ends at the head sentinel, never at an element; (D10) callbacks get the context supplied with them and their int result is never narrowed; (D11) size - k values (pair counts, loop bounds) are computed only where size >= k is known; (D13) no writable static object; (D14) find never inspects the sought object pointer itself; (D8, delegation) an entry point that delegates to insert-after-element does not pass an untested result of a function documented to return NULL; (D12) every store / effectful call made by the assertion-enabled build is also made by the NDEBUG build (no work inside assert()). The link correctness of reverse / sort / merge and equality with a reference "
          "sequence are NOT decided.",
     technique="documentation-contract rule (AST + IR return values) + dominating facts + typestate over LLVM IR")
 CLAIMS['C13'] = dict(
@@ -111,7 +111,7 @@ CLAIMS['C13'] = dict(
          "function that writes a node link also maintains the same list's tail pointer (or re-initialises that list); (N3) swap "
          "re-anchors an empty list's tail to its own head link, reading the count after the swap; (N4) foreach reads the successor "
          "before the visit and propagates the first non-zero result; (N5) count is adjusted exactly once per primitive, concat adds "
-         "once and re-initialises the source; (N6) the tail is only ever set to the head link, another tail, or a node known to exist; (N7) swap exchanges every member; (N8) push_front / push_back / insert_after pass the anchor after which the primitive links; (N9) callbacks get the context supplied with them and their int result is never narrowed; (N10) the unlink primitive re-points the tail at the predecessor when it removes the last node; concat re-points the destination tail only for a non-empty source; (N12) erase_after / pop_front return the element of the node the unlink primitive handed back (or NULL); (N8, delegation) push_back/push_front delegating to insert_after do not pass an untested result of front()/back() (NULL for an empty list); (N11) every store / effectful call made by the assertion-enabled build is also made by the NDEBUG build (no work inside assert()). That reverse / sort / merge produce the right order is NOT decided.",
+         "once and re-initialises the source; (N6) the tail is only ever set to the head link, another tail, or a node known to exist; (N7) swap exchanges every member; (N8) push_front / push_back / insert_after pass the anchor after which the primitive links; (N9) callbacks get the context supplied with them and their int result is never narrowed; (N10) the unlink primitive re-points the tail at the predecessor when it removes the last node; concat re-points the destination tail only for a non-empty source; (N12) erase_after / pop_front return the element of the node the unlink primitive handed back (or NULL); (N13) no writable static object; (N8, delegation) push_back/push_front delegating to insert_after do not pass an untested result of front()/back() (NULL for an empty list); (N11) every store / effectful call made by the assertion-enabled build is also made by the NDEBUG build (no work inside assert()). That reverse / sort / merge produce the right order is NOT decided.",
     technique="documentation-contract rule (AST + IR return values) + field-effect rule + dominating facts + typestate over LLVM IR")
 
 CLAIMS['C01'] = dict(
@@ -121,7 +121,7 @@ CLAIMS['C01'] = dict(
          "foreach binds (left,right) for FWD and (right,left) for REV and returns the walker's result, the adapter forwards "
          "element/order/result unchanged; (W3) size is written only as 0 or size+/-1, exactly once per insert/unlink path; (W4) insert "
          "and find agree on comparison argument order and descent direction; (W5) erase (lookup and unlink routines recognised by effect; path-sensitive) unlinks exactly the node the lookup returned, exactly once and only "
-         "when non-NULL, and returns it, NULL otherwise; (W6) a non-NULL find result is the node that compared equal, and find writes the documented parent out-parameter on every path on which it is not NULL; (W7) insert links the new node only into a slot just read as NULL; (W8) swap exchanges every member of the tree objects (one block copy or member by member); (W9) comparison / visit calls get the context stored beside the function and their int result is never narrowed; (W4, slot choice) every child slot insert links into or descends through is chosen under the matching sign of a comparison; (W10) red-black erase leaves the node at which its repair stops black on every path, skips the repair only where the removed node is known to be red, and (W11) red-black insert ends by colouring the root black (a red root makes the next insert dereference a missing grandparent: the tree can no longer hold what is inserted); (W12) every store / effectful call made by the assertion-enabled build is also made by the NDEBUG build (no work inside assert()). That relinking in the two-child "
+         "when non-NULL, and returns it, NULL otherwise; (W6) a non-NULL find result is the node that compared equal, and find writes the documented parent out-parameter on every path on which it is not NULL; (W7) insert links the new node only into a slot just read as NULL; (W8) swap exchanges every member of the tree objects (one block copy or member by member); (W9) comparison / visit calls get the context stored beside the function and their int result is never narrowed; (W4, slot choice) every child slot insert links into or descends through is chosen under the matching sign of a comparison; (W10) red-black erase leaves the node at which its repair stops black on every path, skips the repair only where the removed node is known to be red, and (W11) red-black insert ends by colouring the root black (a red root makes the next insert dereference a missing grandparent: the tree can no longer hold what is inserted); (W13) the tree units define no writable static object; (W14) a pointer-to-const parameter (the probe of find / erase) is never written through; (W12) every store / effectful call made by the assertion-enabled build is also made by the NDEBUG build (no work inside assert()). That relinking in the two-child "
          "erase case and in rotations preserves the multiset and the order is NOT decided (heap-shape reasoning).",
     technique="path-sensitive typestate over the recursive walker + sibling agreement + dominating facts over LLVM IR")
 CLAIMS['C15'] = dict(
@@ -130,7 +130,7 @@ CLAIMS['C15'] = dict(
          "clear adapters; the map node is freed only after the callback, which sees a detached iterator); (K2) every node gets exactly "
          "one hand-off (walker protocol; the tree adapter calls back exactly for POST/LEAF and returns 0 for every order; list loops "
          "hand off once per iteration); (K3) clear re-establishes the initial state on every path and changes nothing else of the tree object (path-sensitive for the tree; trees incl. rbtree/heap/map through their "
-         "wrappers, which neither store into the container themselves nor hand it to a function that does; slist via the initialiser's stores, dlist via a drain loop that exits only under size == 0).",
+         "wrappers, which neither store into the container themselves nor hand it to a function that does (transitively, block copies included); slist via the initialiser's stores, dlist via a drain loop that exits only under size == 0).",
     technique="path-sensitive typestate (hand-off state, walker protocol) + dominance + init/clear sibling agreement over LLVM IR")
 
 CLAIMS['C08'] = dict(
@@ -139,7 +139,7 @@ CLAIMS['C08'] = dict(
          "code (path-sensitive typestate over call events); (P2) erase-by-key (lookup recognised by effect; path-sensitive) erases only a found entry, exactly once, returns 0 / -1 accordingly "
          "and reports a detached iterator only through a non-NULL out-parameter, erase-by-iterator unlinks then frees that same node once; (P3) stored key/value pointers are "
          "written only at node creation; (P4) the insert hint is the parent reported by the find on the same key with no mutation in "
-         "between; (P5) clear = C15's map instance (the callback runs on every path on which one was supplied); (P6) callbacks get the context supplied with them; (P7) every store / effectful call made by the assertion-enabled build is also made by the NDEBUG build (no work inside assert()).",
+         "between; (P5) clear = C15's map instance (the callback runs on every path on which one was supplied); (P6) callbacks get the context supplied with them; (P8) no writable static object, const parameters never written through; (P9) find writes every member of the iterator on every path; (P7) every store / effectful call made by the assertion-enabled build is also made by the NDEBUG build (no work inside assert()).",
     technique="path-sensitive typestate over call events + field-effect rule + dominance over LLVM IR")
 CLAIMS['C11'] = dict(
     text="Thin by design: decides only clauses with a type- or shape-level necessary condition: (X1) no size_t count/index is "
